@@ -26,6 +26,8 @@ func main() {
 		os.Exit(cmdCheck(os.Args[2:]))
 	case "vcs":
 		os.Exit(cmdVCs(os.Args[2:]))
+	case "replay":
+		os.Exit(cmdReplay(os.Args[2:]))
 	default:
 		fmt.Fprintln(os.Stderr, "unknown command", os.Args[1])
 		os.Exit(2)
@@ -188,12 +190,109 @@ func cmdCheck(args []string) int {
 	return pc(ck)
 }
 
+// cmdReplay re-examines a recorded violation on the CURRENT tree of /repo:
+// it prints what the replay file recorded (obligation, clause, solver verdict,
+// decoded model and, where there is one, the failing input found on the real
+// code) and re-runs the quick check of its property with all output going to a
+// scratch directory; exit 1 if the recorded obligation still fails, 0 if it
+// now discharges.
+func cmdReplay(args []string) int {
+	if len(args) < 1 {
+		fmt.Fprintln(os.Stderr, "usage: govc replay <replay file>")
+		return 2
+	}
+	b, err := os.ReadFile(args[0])
+	if err != nil {
+		fmt.Fprintln(os.Stderr, "engine error:", err)
+		return 2
+	}
+	var rec map[string]any
+	if err := json.Unmarshal(b, &rec); err != nil {
+		fmt.Fprintln(os.Stderr, "engine error:", err)
+		return 2
+	}
+	prop, _ := rec["property"].(string)
+	obl, _ := rec["obligation"].(string)
+	if obl == "" {
+		obl, _ = rec["name"].(string)
+	}
+	if prop == "" {
+		// replay files live in replays/<property>/
+		prop = filepath.Base(filepath.Dir(args[0]))
+	}
+	fmt.Printf("replay of %s\n  property:   %s\n  obligation: %s\n", args[0], prop, obl)
+	for _, k := range []string{"clause", "kind", "position", "path", "solver_status", "observed", "error"} {
+		if v, ok := rec[k]; ok && fmt.Sprint(v) != "" {
+			fmt.Printf("  %s: %v\n", k, v)
+		}
+	}
+	for _, k := range []string{"model", "replay_on_real_code", "concrete_search_on_real_code", "failing_cases"} {
+		if v, ok := rec[k]; ok && v != nil {
+			jb, _ := json.MarshalIndent(v, "  ", " ")
+			fmt.Printf("  %s: %s\n", k, jb)
+		}
+	}
+	pc, ok := propChecks[prop]
+	if !ok {
+		fmt.Fprintln(os.Stderr, "engine error: no check registered for", prop)
+		return 2
+	}
+	vd := verifDir()
+	P, err := LoadProg("/repo", filepath.Join(vd, "spec"))
+	if err != nil {
+		fmt.Fprintln(os.Stderr, "engine error: load:", err)
+		return 2
+	}
+	out, err := os.MkdirTemp(filepath.Join(vd, ".work"), "replay-")
+	if err != nil {
+		os.MkdirAll(filepath.Join(vd, ".work"), 0o755)
+		out, err = os.MkdirTemp(filepath.Join(vd, ".work"), "replay-")
+		if err != nil {
+			fmt.Fprintln(os.Stderr, "engine error:", err)
+			return 2
+		}
+	}
+	defer os.RemoveAll(out)
+	fmt.Printf("re-running the quick check of %s on the current tree ...\n", prop)
+	ck := &Check{P: P, Prop: prop, Tier: "quick", Verif: vd, Out: out, T0: time.Now()}
+	rc := pc(ck)
+	var ev struct {
+		Coverage map[string]any `json:"coverage"`
+	}
+	eb, _ := os.ReadFile(filepath.Join(out, "evidence", prop+".json"))
+	json.Unmarshal(eb, &ev)
+	still := false
+	if fl, ok := ev.Coverage["failed"].([]any); ok {
+		for _, f := range fl {
+			if m, ok := f.(map[string]any); ok && (m["obligation"] == obl || unsafeName.ReplaceAllString(fmt.Sprint(m["obligation"]), "_") == unsafeName.ReplaceAllString(obl, "_")) {
+				still = true
+			}
+		}
+	}
+	if !still && rc == 1 && obl != "" {
+		// data / bounded / flow obligations are not listed under coverage.failed
+		files, _ := filepath.Glob(filepath.Join(out, "replays", prop, "*.json"))
+		for _, f := range files {
+			if strings.HasPrefix(filepath.Base(f), unsafeName.ReplaceAllString(obl, "_")) {
+				still = true
+			}
+		}
+	}
+	if still {
+		fmt.Printf("REPRODUCED property=%s obligation=%s still fails on the current tree\n", prop, obl)
+		return 1
+	}
+	fmt.Printf("NOT REPRODUCED property=%s obligation=%s discharges on the current tree (check exit code %d)\n", prop, obl, rc)
+	return 0
+}
+
 // Check is the per-property run context.
 type Check struct {
 	P     *Prog
 	Prop  string
 	Tier  string
 	Verif string
+	Out   string // where evidence and replays are written ("" = Verif)
 	T0    time.Time
 
 	results      []*Result
@@ -392,6 +491,13 @@ func (ck *Check) dischargeCovers() {
 	ck.extraCov["vacuity_covers"] = map[string]any{"covers": len(res), "groups": len(groups), "answered_sat": satisfiable, "vacuous_groups": vacuous,
 		"meaning": "per function: its preconditions; per property clause of the form A ==> B: A together with some path condition; a group is vacuous only if z3 refutes it on every path (3 s each; unknown counts as not refuted)"}
 	ck.coverJobs = nil
+}
+
+func (ck *Check) outDir() string {
+	if ck.Out != "" {
+		return ck.Out
+	}
+	return ck.Verif
 }
 
 func writeJSON(path string, v any) error {
